@@ -220,7 +220,7 @@ def run(vc):
         bound="one 12-bus network with every branch type and switch kind (respect_switches in {True, False}); chains of 5..7 buses with "
               "out-of-service buses, nogobuses and notravbuses; connected_components with six notravbuses sets",
         script="import sys\nfrom replaylib.topology import main, main_nodes, main_notrav\n"
-               "for f in (main, main_nodes, main_notrav):\n    try:\n        f()\n    except SystemExit as e:\n        if e.code:\n            raise\n",
+               "from replaylib import run_all\nrun_all(main, main_nodes, main_notrav)\n",
         timeout=600))
 
 
